@@ -70,8 +70,17 @@ func baseEnv(extra ...string) []string {
 // the whole import closure). Type errors, list errors or an empty package set are fatal for
 // the caller (fail closed).
 func Load(dir, modPfx string, extraEnv ...string) (*World, error) {
-	w := &World{Dir: dir, ModPfx: modPfx, Fset: token.NewFileSet(), Env: baseEnv(extraEnv...)}
-	cfg := &packages.Config{Mode: packages.LoadAllSyntax, Dir: dir, Fset: w.Fset, Env: w.Env, Tests: false}
+	// entries of the form "-tags=…" are build flags, everything else is environment
+	var flags, envx []string
+	for _, e := range extraEnv {
+		if strings.HasPrefix(e, "-") {
+			flags = append(flags, e)
+		} else {
+			envx = append(envx, e)
+		}
+	}
+	w := &World{Dir: dir, ModPfx: modPfx, Fset: token.NewFileSet(), Env: baseEnv(envx...)}
+	cfg := &packages.Config{Mode: packages.LoadAllSyntax, Dir: dir, Fset: w.Fset, Env: w.Env, Tests: false, BuildFlags: flags}
 	pkgs, err := packages.Load(cfg, "./...")
 	if err != nil {
 		return nil, fmt.Errorf("load %s: %v", dir, err)
@@ -86,6 +95,9 @@ func Load(dir, modPfx string, extraEnv ...string) (*World, error) {
 		if strings.HasPrefix(p.PkgPath, modPfx) {
 			for _, e := range p.Errors {
 				errs = append(errs, e.Error())
+			}
+			if p.IllTyped && len(p.Errors) == 0 {
+				errs = append(errs, p.PkgPath+": ill-typed (a dependency does not type-check in this build configuration)")
 			}
 		}
 	})
